@@ -24,7 +24,7 @@ REQUIRED = ['mon.mc_programs', 'mon.mc_exceptions_in_body', 'mon.mc_hover_setpoi
             'mon.mc_consecutive_motions_with_same_vertical_velocity', 'mon.mc_statement_level_preemption_runs',
             'mon.mc_flights_ending_below_take_off_level', 'mon.mc_identical_velocity_commanded_again',
             'mon.mc_programs_over_the_real_commander_legacy_firmware', 'mon.mc_legacy_setpoints_with_yaw_rate',
-            'mon.hl_programs_over_the_real_hl_commander', 'mon.mc_second_flights_with_the_same_object', 'mon.mc_landings_with_a_setpoint_stalled_on_the_link']
+            'mon.hl_programs_over_the_real_hl_commander', 'mon.mc_second_flights_with_the_same_object', 'mon.mc_landings_with_a_setpoint_stalled_on_the_link', 'mon.mc_flights_left_after_the_link_was_lost']
 DESC_TIMEOUT = 900
 PERIOD = 0.2
 
@@ -88,7 +88,7 @@ class WireCf:
         self.param = Rec(self.log, 'param.', ['set_value'])
 
     def is_connected(self):
-        return True
+        return getattr(self, 'connected_now', True)
 
     def send_packet(self, pk, expected_reply=(), resend=False, timeout=0.2):
         import struct
@@ -349,6 +349,7 @@ def run_mc(desc, ctx):
                 # helper is landing: that setpoint takes two seconds to go out
                 stall = {'armed': False, 'done': False}
                 ob['f2_stalled'] = it % 8 == 5
+                ob['f2_link_lost'] = it % 8 == 1
                 real_send = cf.commander.send_hover_setpoint
 
                 def slow_send(*a, **k):
@@ -364,16 +365,21 @@ def run_mc(desc, ctx):
                             ob['f2_thread'] = mc._thread
                             mc.forward(d2, v2)
                             stall['armed'] = True
+                            if ob['f2_link_lost']:
+                                cf.connected_now = False      # the link is lost in flight: the helper still ends the flight
                     else:
                         mc.take_off(h0, tk_v)
                         ob['f2_thread'] = mc._thread
                         mc.forward(d2, v2)
                         stall['armed'] = True
+                        if ob['f2_link_lost']:
+                            cf.connected_now = False
                         mc.land()
                 except Exception as e:  # noqa
                     ob['f2_error'] = repr(e)[:200]
                 if ob['f2_stalled']:
                     cf.commander.send_hover_setpoint = real_send
+                cf.connected_now = True
                 ob['f2_t1'] = s.now
                 ob['f2_min_duration'] = h0 / (0.2 if form == 'with' else tk_v) + d2 / v2
                 s.sleep(3.0)
@@ -522,6 +528,8 @@ def run_mc(desc, ctx):
                 ctx.count('mon.mc_second_flights_with_the_same_object')
                 if ob.get('f2_stalled'):
                     ctx.count('mon.mc_landings_with_a_setpoint_stalled_on_the_link')
+                if ob.get('f2_link_lost'):
+                    ctx.count('mon.mc_flights_left_after_the_link_was_lost')
                 c2 = [c for c in cf.log[ob.get('f2_mark', len(cf.log)):] if c[1].startswith('cmd.')]
                 h2 = [c for c in c2 if c[1] == 'cmd.send_hover_setpoint']
                 gaps = [b[0] - a[0] for a, b in zip(h2, h2[1:])]
